@@ -315,6 +315,50 @@ Eval(t, env, db) ==
 NoEnv == [v |-> <<>>, ty |-> None]
 Run(t, env, db) == Eval(t, env, db)
 
+(* ------------------------------------------- reference inference ---- *)
+\* A reference cardinality inference over the same terms: <<lo, hi>> with
+\* lo in {0, 1} and hi in {0, 1, 2}  (2 = many).  TLC checks it sound against
+\* Eval on every database (CardSound); the harness reports where the real
+\* compiler claims something tighter or looser than this reference.
+Mx(a, b) == IF a >= b THEN a ELSE b
+Mn(a, b) == IF a <= b THEN a ELSE b
+Prod(a, b) == <<IF a[1] = 1 /\ b[1] = 1 THEN 1 ELSE 0,
+               IF a[2] = 0 \/ b[2] = 0 THEN 0 ELSE IF a[2] = 1 /\ b[2] = 1 THEN 1 ELSE 2>>
+RECURSIVE SpecCard(_)
+SpecCard(t) ==
+  LET op == t[1] IN
+  CASE op = "lit"  -> LET n == Len(t[2]) IN
+                      <<IF n >= 1 THEN 1 ELSE 0, IF n = 0 THEN 0 ELSE IF n = 1 THEN 1 ELSE 2>>
+    [] op = "root" -> <<0, 2>>
+    [] op = "var"  -> <<1, 1>>
+    [] op = "rng"  -> <<1, 1>>
+    [] op = "ptr"  -> LET c == SpecCard(t[2]) IN
+                      IF t[3] \in {"n", "m", "rl"} THEN c
+                      ELSE IF t[3] \in {"o", "l", "s"} THEN <<0, c[2]>>
+                      ELSE <<0, IF c[2] = 0 THEN 0 ELSE 2>>
+    [] op = "filter" -> LET c == SpecCard(t[2]) IN
+                      <<0, IF t[3] \in {"n", "m"} /\ t[2][1] = "root" THEN Mn(1, c[2]) ELSE c[2]>>
+    [] op \in {"distinct", "enum", "cast", "rcast", "in"} ->
+                      SpecCard(IF op \in {"cast", "rcast"} THEN t[3] ELSE t[2])
+    [] op \in {"count", "exists", "aagg"} -> <<1, 1>>
+    [] op = "min"    -> LET c == SpecCard(t[2]) IN <<c[1], Mn(1, c[2])>>
+    [] op = "unpack" -> LET c == SpecCard(t[2]) IN <<0, IF c[2] = 0 THEN 0 ELSE 2>>
+    [] op = "limit"  -> LET c == SpecCard(t[2]) IN
+                      IF t[3] = 0 THEN <<0, 0>> ELSE <<c[1], IF t[3] = 1 THEN Mn(1, c[2]) ELSE c[2]>>
+    [] op \in {"limitc", "offset", "isect"} -> <<0, SpecCard(t[2])[2]>>
+    [] op = "union"  -> LET a == SpecCard(t[2])  b == SpecCard(t[3]) IN
+                      <<Mx(a[1], b[1]),
+                        IF a[2] = 0 THEN b[2] ELSE IF b[2] = 0 THEN a[2] ELSE 2>>
+    [] op = "coal"   -> LET a == SpecCard(t[2])  b == SpecCard(t[3]) IN
+                      IF a[1] = 1 THEN a ELSE <<Mx(a[1], b[1]), Mx(a[2], b[2])>>
+    [] op \in {"tup", "plus", "eq"} -> Prod(SpecCard(t[2]), SpecCard(t[3]))
+    [] op = "opteq"  -> LET a == SpecCard(t[2])  b == SpecCard(t[3]) IN
+                      <<1, IF a[2] <= 1 /\ b[2] <= 1 THEN 1 ELSE 2>>
+    [] op = "if"     -> LET c == SpecCard(t[2])  a == SpecCard(t[3])  b == SpecCard(t[4]) IN
+                      Prod(c, <<Mn(a[1], b[1]), Mx(a[2], b[2])>>)
+    [] op = "for"    -> Prod(SpecCard(t[2]), SpecCard(t[3]))
+    [] OTHER -> <<0, 2>>
+
 (* ---------------------------------------------------------- universe ---- *)
 Ints1  == <<"lit", <<I64(1)>>, Sc("int64")>>
 Ints12 == <<"lit", <<I64(1), I64(2)>>, Sc("int64")>>
@@ -469,7 +513,10 @@ Judge ==
           all   == UNION {obs[db] : db \in DBs}
           sizes == {Len(b) : b \in all}
           dup   == \E b \in all : HasDup(b)
-      IN /\ PrintT("OUT " \o ToString(<<term, StaticType, sizes, dup>>))
+          ref   == SpecCard(Body)
+      IN /\ PrintT("OUT " \o ToString(<<term, StaticType, sizes, dup, ref>>))
+         \* the reference inference is sound on every database
+         /\ \A n \in sizes : n >= ref[1] /\ (ref[2] = 0 => n = 0) /\ (ref[2] = 1 => n <= 1)
          /\ (~WantShow \/ PrintT("SHOW " \o ToString(<<term, Shown>>)))
          /\ TypeSoundOn(obs)
          /\ ObjTypeSoundOn(obs)
